@@ -101,13 +101,30 @@ pub fn wl_c11(seed: u64, tier: &str) -> Vec<Vec<Value>> {
         let b: Vec<i64> = (0..len).map(|_| r.below(7) as i64 - 3).collect();
         lists.push((a, b));
     }
+    // long lists (a helper that batches internally must still see every pair exactly once)
+    for len in [63usize, 64, 65, 130].iter() {
+        if !thorough && *len == 130 {
+            // one long cancelling list instead: sum over the whole list only
+            let mut a: Vec<i64> = (0..70).map(|i| 1 + (i % 3) as i64).collect();
+            let b: Vec<i64> = (0..70).map(|i| if i % 2 == 0 { 1 } else { -1 }).collect();
+            let s: i64 = a.iter().zip(b.iter()).map(|(x, y)| x * y).sum();
+            a.push(-s);
+            let mut b2 = b.clone();
+            b2.push(1);
+            lists.push((a, b2));
+            continue;
+        }
+        let a: Vec<i64> = (0..*len).map(|_| r.below(7) as i64 - 3).collect();
+        let b: Vec<i64> = (0..*len).map(|_| r.below(7) as i64 - 3).collect();
+        lists.push((a, b));
+    }
     // explicit cancellations: sum a_i b_i = 0
     lists.push((vec![1, -1], vec![2, 2]));
     lists.push((vec![2, 1, -3], vec![3, 3, 3]));
     lists.push((vec![1, 1, -2, 0], vec![1, 1, 1, 5]));
     for (i, (a, b)) in lists.iter().enumerate() {
         ops.push(json!({"op": "pairl", "fn": "miller", "as": a, "bs": b, "cls": format!("list-len{}", a.len())}));
-        if i % 3 == 0 {
+        if i % 3 == 0 || a.len() > 10 {
             ops.push(json!({"op": "pairl", "fn": "pmulti", "as": a, "bs": b, "cls": format!("multi-len{}", a.len())}));
         }
         if a.len() == 2 {
@@ -179,9 +196,25 @@ pub fn wl_c12(seed: u64, tier: &str) -> Vec<Vec<Value>> {
         (json!([[o2, z2, z2], [o2, z2, z2]]), "1+w"),
         (json!([[z2, z2, rand_f2(&mut r, &fq)], [z2, rand_f2(&mut r, &fq), z2]]), "sparse"),
     ];
-    let n = if thorough { 60 } else { 10 };
+    let n = if thorough { 60 } else { 8 };
     for _ in 0..n {
         direct.push((rand_f12(&mut r, &fq), "rand"));
+    }
+    // elements of norm one over Fq6 (conj(m)/m) and elements already in the target group
+    {
+        use ff::Field;
+        use pairing::bls12_381::{Bls12, Fq12};
+        use pairing::Engine;
+        for i in 0..(if thorough { 8 } else { 2 }) {
+            let m = Fq12::from_j(&rand_f12(&mut r, &fq));
+            let mut u = m;
+            u.conjugate();
+            u.mul_assign(&m.inverse().unwrap());
+            direct.push((u.to_j(), "unitary"));
+            if i % 2 == 0 {
+                direct.push((Bls12::final_exponentiation(&m).unwrap().to_j(), "already-in-Gt"));
+            }
+        }
     }
     for (f, cls) in direct {
         sessions.push(vec![json!({"op": "finalexp", "f": f, "cls": cls})]);
